@@ -59,8 +59,9 @@ class Dim:
 
 class Mx:
     """symbolic matrix (vec=True: a numpy 1-D array, modelled as a row vector)"""
-    def __init__(self, coq, r, c, vec=False, atom=False):
+    def __init__(self, coq, r, c, vec=False, atom=False, ev=None):
         self.coq, self.r, self.c, self.vec, self.atom = coq, r, c, vec, atom
+        self.ev = ev        # numeric meaning of the Coq term: env -> numpy value
 
     def p(self):
         return self.coq if self.atom else '(%s)' % self.coq
@@ -71,8 +72,9 @@ class Mx:
 
 class Sc:
     """symbolic scalar of the field; `nonzero`: path assumption  s != 0"""
-    def __init__(self, coq, nonzero=False, notone=False, atom=True):
+    def __init__(self, coq, nonzero=False, notone=False, atom=True, ev=None):
         self.coq, self.nonzero, self.notone, self.atom = coq, nonzero, notone, atom
+        self.ev = ev
 
     def p(self):
         return self.coq if self.atom else '(%s)' % self.coq
@@ -120,6 +122,15 @@ class Ref:
 class Bound:
     def __init__(self, obj, attr):
         self.obj, self.attr = obj, attr
+
+
+def _np():
+    import numpy
+    return numpy
+
+
+def dim_val(d, env):
+    return env[d.name] + d.off if isinstance(d, Dim) else int(d)
 
 
 def num_coq(x):
@@ -183,13 +194,13 @@ class Interp:
     def sym_mx(self, name, r, c, vec=False):
         if vec:
             self.bind(name, "'rV[F]_(%s)" % (c.coq() if isinstance(c, Dim) else c))
-            return Mx(name, 1, c, vec=True, atom=True)
+            return Mx(name, 1, c, vec=True, atom=True, ev=lambda env: env[name])
         self.bind(name, self.mtype(r, c))
-        return Mx(name, r, c, atom=True)
+        return Mx(name, r, c, atom=True, ev=lambda env: env[name])
 
     def sym_sc(self, name, **kw):
         self.bind(name, 'F')
-        return Sc(name, **kw)
+        return Sc(name, ev=lambda env: env[name], **kw)
 
     def opaque(self, base, r, c):
         name = base
@@ -290,7 +301,9 @@ class Interp:
                 if not isinstance(tgt.value, ast.Name):
                     self.bad(tgt)
                 self.store(tgt.value.id, Mx('\\matrix_(%s < %s) %s' % (idx.name, base.r.coq(), v.p()),
-                                            base.r, base.c), fr)
+                                            base.r, base.c,
+                                            ev=lambda env, v=v, i=idx.name, h=base.r: _np().array(
+                                                [v.ev(dict(env, **{i: k})) for k in range(dim_val(h, env))])), fr)
             elif isinstance(base, Mx) and not base.vec and isinstance(tgt.value, ast.Name) \
                     and isinstance(idx, tuple) and all(isinstance(i, int) for i in idx):
                 # element store: from here on the matrix is arbitrary
@@ -402,9 +415,9 @@ class Interp:
             if isinstance(v, (int, float)) and not isinstance(v, bool):
                 return -v
             if isinstance(v, Mx):
-                return Mx('- %s' % v.p(), v.r, v.c, v.vec)
+                return Mx('- %s' % v.p(), v.r, v.c, v.vec, ev=lambda env: -v.ev(env))
             if isinstance(v, Sc):
-                return Sc('- %s' % v.p(), v.nonzero, atom=False)
+                return Sc('- %s' % v.p(), v.nonzero, atom=False, ev=lambda env: -v.ev(env))
         self.bad(e)
 
     def e_BoolOp(self, e, fr):
@@ -507,7 +520,7 @@ class Interp:
         if isinstance(v, Sc):
             return v
         if isinstance(v, (int, float)) and not isinstance(v, bool):
-            return Sc(num_coq(v), atom=True)
+            return Sc(num_coq(v), atom=True, ev=lambda env: float(v))
         return None
 
     def binop(self, op, a, b, node, inplace=False):
@@ -531,29 +544,35 @@ class Interp:
         if isinstance(a, list) and isinstance(op, ast.Mult) and len(a) == 1 and isinstance(b, Dim):
             return Rep(a[0], b)
         if isinstance(a, Mx) and isinstance(b, Mx):
+            if isinstance(op, ast.MatMult):
+                return self.dot(a, b, node)
             if isinstance(op, (ast.Add, ast.Sub)):
                 if (a.r, a.c, a.vec) != (b.r, b.c, b.vec):
                     self.bad(node, 'shape mismatch')
-                return Mx('%s %s %s' % (a.p(), '+' if isinstance(op, ast.Add) else '-', b.p()), a.r, a.c, a.vec)
+                sg = 1.0 if isinstance(op, ast.Add) else -1.0
+                return Mx('%s %s %s' % (a.p(), '+' if isinstance(op, ast.Add) else '-', b.p()), a.r, a.c, a.vec,
+                          ev=lambda env: a.ev(env) + sg * b.ev(env))
             if isinstance(op, ast.Div) and inplace and not a.vec and b.vec and a.c == b.c:
-                return Mx('coldiv %s %s' % (a.p(), b.p()), a.r, a.c)
+                return Mx('coldiv %s %s' % (a.p(), b.p()), a.r, a.c, ev=lambda env: a.ev(env) / b.ev(env)[None, :])
             self.bad(node, 'matrix operator')
         sa, sb = self.as_sc(a), self.as_sc(b)
         if isinstance(a, Mx) and sb is not None:
             if isinstance(op, ast.Mult):
-                return Mx('%s *: %s' % (sb.p(), a.p()), a.r, a.c, a.vec)
+                return Mx('%s *: %s' % (sb.p(), a.p()), a.r, a.c, a.vec, ev=lambda env: sb.ev(env) * a.ev(env))
             if isinstance(op, ast.Div):
-                return Mx('%s^-1 *: %s' % (sb.p(), a.p()), a.r, a.c, a.vec)
+                return Mx('%s^-1 *: %s' % (sb.p(), a.p()), a.r, a.c, a.vec, ev=lambda env: (1.0 / sb.ev(env)) * a.ev(env))
             self.bad(node, 'matrix-scalar operator')
         if isinstance(b, Mx) and sa is not None:
             if isinstance(op, ast.Mult):
-                return Mx('%s *: %s' % (sa.p(), b.p()), b.r, b.c, b.vec)
+                return Mx('%s *: %s' % (sa.p(), b.p()), b.r, b.c, b.vec, ev=lambda env: sa.ev(env) * b.ev(env))
             self.bad(node, 'scalar-matrix operator')
         if sa is not None and sb is not None:
             sym = {ast.Add: '+', ast.Sub: '-', ast.Mult: '*', ast.Div: '/'}.get(type(op))
             if sym is None:
                 self.bad(node, 'scalar operator')
-            return Sc('%s %s %s' % (sa.p(), sym, sb.p()), atom=False)
+            import operator
+            fn = {'+': operator.add, '-': operator.sub, '*': operator.mul, '/': operator.truediv}[sym]
+            return Sc('%s %s %s' % (sa.p(), sym, sb.p()), atom=False, ev=lambda env: fn(sa.ev(env), sb.ev(env)))
         self.bad(node, 'operands %r %r' % (a, b))
 
     def e_Attribute(self, e, fr):
@@ -564,10 +583,10 @@ class Interp:
             if e.attr == 'T':
                 if v.vec:
                     self.bad(e, '.T of a 1-D array')
-                return Mx('%s^T' % v.p(), v.c, v.r, atom=True)
+                return Mx('%s^T' % v.p(), v.c, v.r, atom=True, ev=lambda env: v.ev(env).T)
             if e.attr == 'shape':
                 return (v.c,) if v.vec else (v.r, v.c)
-            if e.attr in ('dot', 'copy', 'astype', 'sum'):
+            if e.attr in ('dot', 'copy', 'astype', 'sum', 'transpose'):
                 return Bound(v, e.attr)
         self.bad(e, 'attribute')
 
@@ -586,7 +605,7 @@ class Interp:
                 return v
             self.bad(e, 'crop to a different size (dims %r %r)' % (v.r, v.c))
         if isinstance(v, Mx) and not v.vec and isinstance(idx, RowIdx):
-            return Mx('row %s %s' % (idx.name, v.p()), 1, v.c, vec=True)
+            return Mx('row %s %s' % (idx.name, v.p()), 1, v.c, vec=True, ev=lambda env: v.ev(env)[env[idx.name]])
         self.bad(e, 'subscript')
 
     def e_ListComp(self, e, fr):
@@ -647,31 +666,41 @@ class Interp:
             return self.dot(v, args[0], e)
         if f.attr == 'copy' and not args and not kwargs:
             return v
+        if f.attr == 'transpose' and not args and not kwargs and not v.vec:
+            return Mx('%s^T' % v.p(), v.c, v.r, atom=True, ev=lambda env: v.ev(env).T)
         if f.attr == 'astype' and len(args) == 1 and isinstance(args[0], Ref) and args[0].q == 'builtins.float' and not kwargs:
             return v
         if f.attr == 'sum' and not args and kwargs == {'axis': 0} and not v.vec:
-            return Mx('colsum %s' % v.p(), 1, v.c, vec=True)
+            return Mx('colsum %s' % v.p(), 1, v.c, vec=True, ev=lambda env: v.ev(env).sum(axis=0))
         self.bad(e, 'method')
 
     def dot(self, a, b, e):
         if not a.vec and not b.vec:
             if a.c != b.r:
                 self.bad(e, 'inner dimensions %r %r' % (a.c, b.r))
-            return Mx('%s *m %s' % (a.p(), b.p()), a.r, b.c)
+            return Mx('%s *m %s' % (a.p(), b.p()), a.r, b.c, ev=lambda env: a.ev(env) @ b.ev(env))
         if a.vec and not b.vec:
             if a.c != b.r:
                 self.bad(e, 'inner dimensions')
-            return Mx('%s *m %s' % (a.p(), b.p()), 1, b.c, vec=True)
+            return Mx('%s *m %s' % (a.p(), b.p()), 1, b.c, vec=True, ev=lambda env: a.ev(env) @ b.ev(env))
         if not a.vec and b.vec:
             if a.c != b.c:
                 self.bad(e, 'inner dimensions')
-            return Mx('%s *m %s^T' % (b.p(), a.p()), 1, a.r, vec=True)
+            return Mx('%s *m %s^T' % (b.p(), a.p()), 1, a.r, vec=True, ev=lambda env: b.ev(env) @ a.ev(env).T)
         self.bad(e, 'dot of two 1-D arrays')
 
     def builtin(self, q, args, kwargs, e):
-        if q == 'scipy.linalg.inv' and len(args) == 1 and not kwargs and isinstance(args[0], Mx) \
+        if q in ('numpy.dot', 'numpy.matmul') and len(args) == 2 and not kwargs and all(isinstance(a, Mx) for a in args):
+            return self.dot(args[0], args[1], e)
+        if q == 'numpy.transpose' and len(args) == 1 and not kwargs and isinstance(args[0], Mx) and not args[0].vec:
+            v = args[0]
+            return Mx('%s^T' % v.p(), v.c, v.r, atom=True, ev=lambda env: v.ev(env).T)
+        if q == 'numpy.copy' and len(args) == 1 and not kwargs and isinstance(args[0], Mx):
+            return args[0]
+        if q in ('scipy.linalg.inv', 'numpy.linalg.inv') and len(args) == 1 and not kwargs and isinstance(args[0], Mx) \
                 and not args[0].vec and args[0].r == args[0].c:
-            return Mx('invmx %s' % args[0].p(), args[0].r, args[0].c)
+            A0 = args[0]
+            return Mx('invmx %s' % A0.p(), A0.r, A0.c, ev=lambda env: _np().linalg.inv(A0.ev(env)))
         if q == 'scipy.linalg.solve_triangular' and len(args) == 2 and set(kwargs) <= {'lower'} \
                 and all(isinstance(a, Mx) and not a.vec for a in args):
             lower = kwargs.get('lower', False)
@@ -680,17 +709,23 @@ class Interp:
             A, B = args
             if A.r != A.c or A.c != B.r:
                 self.bad(e, 'solve_triangular shapes')
-            return Mx('solve_triangular %s %s %s' % ('true' if lower else 'false', A.p(), B.p()), B.r, B.c)
+            return Mx('solve_triangular %s %s %s' % ('true' if lower else 'false', A.p(), B.p()), B.r, B.c,
+                      ev=lambda env: _np().linalg.inv((_np().tril if lower else _np().triu)(A.ev(env))) @ B.ev(env))
+        if q == 'numpy.identity' and len(args) == 1 and not kwargs and isinstance(args[0], Dim):
+            d0 = args[0]
+            return Mx('1%:M', d0, d0, atom=True, ev=lambda env: _np().eye(dim_val(d0, env)))
         if q == 'numpy.eye' and len(args) == 1 and isinstance(args[0], Dim):
             if not kwargs:
-                return Mx('1%:M', args[0], args[0], atom=True)
+                d0 = args[0]
+                return Mx('1%:M', d0, d0, atom=True, ev=lambda env: _np().eye(dim_val(d0, env)))
             if set(kwargs) == {'k'} and isinstance(kwargs['k'], int) and kwargs['k'] != 0:
                 return self.opaque('Eye_k', args[0], args[0])
         if q == 'numpy.diag' and len(args) == 1 and not kwargs and isinstance(args[0], Rep):
             s = self.as_sc(args[0].x)
             if s is None:
                 self.bad(e, 'diag of non-scalar')
-            return Mx('%s%%:M' % s.p(), args[0].k, args[0].k, atom=True)
+            k0 = args[0].k
+            return Mx('%s%%:M' % s.p(), k0, k0, atom=True, ev=lambda env: s.ev(env) * _np().eye(dim_val(k0, env)))
         if q == 'numpy.atleast_2d' and len(args) == 1 and isinstance(args[0], Mx) and not args[0].vec:
             return args[0]
         if q == 'numpy.tensordot' and len(args) == 2 and kwargs == {'axes': (1, 1)} \
@@ -698,7 +733,7 @@ class Interp:
             X, D = args
             if X.c != D.c:
                 self.bad(e, 'tensordot shapes')
-            return Mx('%s *m %s^T' % (X.p(), D.p()), X.r, D.r)
+            return Mx('%s *m %s^T' % (X.p(), D.p()), X.r, D.r, ev=lambda env: X.ev(env) @ D.ev(env).T)
         if q == 'numpy.empty_like' and len(args) == 1 and isinstance(args[0], Mx) and not args[0].vec:
             return Uninit(args[0].r, args[0].c)
         if q == 'numpy.ndim' and len(args) == 1:
